@@ -97,7 +97,19 @@ func idFromNamed(typ *types.Named) string {
 	if len(pkg) > 4 {
 		pkg = pkg[:4]
 	}
-	return pkg + "_" + typ.Obj().Name()
+	id := pkg + "_" + typ.Obj().Name()
+	// the instantiations of a generic type are distinct types : Keyed[Id, string] and Keyed[Id, bool]
+	// need one validation function each
+	for i := range typ.TypeArgs().Len() {
+		arg := types.TypeString(typ.TypeArgs().At(i), func(*types.Package) string { return "" })
+		id += "_" + strings.Map(func(r rune) rune {
+			if r == '_' || '0' <= r && r <= '9' || 'a' <= r && r <= 'z' || 'A' <= r && r <= 'Z' {
+				return r
+			}
+			return '_'
+		}, arg)
+	}
+	return id
 }
 
 // functionName returns the name of the validation function
